@@ -67,8 +67,10 @@ Step ==
        [] e.e = "u" /\ op = "flow" ->
             \* the caller is cancelled / closed: fine; a private signal of the library reaching the caller is not
             \* (the interrupt of an until-block around the call is the caller's own and passes through the call)
-            IF e.exc[1] \in {"cs", "ci", "wk"} /\ ~(st.cons = "until1" /\ e.exc[1] = "ci") THEN Fail("C16.internal_signal_escaped")
+            IF e.exc[1] \in {"cs", "ci", "wk"} /\ ~(st.cons \in {"until1", "until0"} /\ e.exc[1] = "ci") THEN Fail("C16.internal_signal_escaped")
             ELSE IF st.cons = "until1" /\ t # st.t0 + 1 THEN Fail("C16.abort_time")
+            \* an interrupt that was in flight when the call was made strikes at its first suspension: in that time step
+            ELSE IF st.cons \in {"until0", "cancel0"} /\ t # st.t0 THEN Fail("C16.abort_time")
             ELSE st' = [st EXCEPT !.ended = TRUE] /\ UNCHANGED bad
        [] e.e = "fin" ->
             IF e.out.k = "exc" /\ e.out.internal THEN Fail("C16.run_failed")
